@@ -55,35 +55,65 @@ Completes(used, list) == TLSAccepts(used) /\ used \subseteq list
 ChainCompletes(used, list) == IF "cur" \notin used THEN {FALSE}
                               ELSE IF used \subseteq list THEN {TRUE, FALSE} ELSE {FALSE}
 
-VARIABLES n, op
-vars == <<n, op>>
-View == n
+(* The verifier is asked again and again by one process while time passes: "currently valid" makes the
+   verdict depend on the clock, so the model has one.  A behaviour picks a lifetime; all subject
+   certificates of the behaviour share the window [NotBefore, NotAfter]; `pos` walks the clock through
+   WhenSeq (1 s before NotBefore, exactly NotBefore, the middle, exactly NotAfter, 1 s after).  `seen` is
+   the history: the algorithms whose subject certificate the verifier was allowed to accept earlier in the
+   behaviour.  The property: the verdict is a function of (chain, hash list, now) - Allowed does not take
+   `seen` - so any memoisation of verdicts across calls shows as a disagreement on a repeated query. *)
+WhenSeq == <<"notyet", "at_notbefore", "inside", "at_notafter", "expired">>
 
-Init == n = 0 /\ op = [name |-> "init"]
+VARIABLES pos, life, seen, op
+vars == <<pos, life, seen, op>>
+View == <<pos, life, seen>>
 
-Verify(r) == /\ n' = n
-             /\ op' = [name |-> "verify", chain |-> r.chain, list |-> r.list, alg |-> r.alg, life |-> r.life,
-                       when |-> r.when, allowed |-> Allowed(r)]
+Init == pos = 0 /\ life = "none" /\ seen = {} /\ op = [name |-> "init"]
 
-Dial(used, list) == /\ n' = n
+Choose(l) == /\ pos = 0
+             /\ pos' = 1 /\ life' = l /\ seen' = {}
+             /\ op' = [name |-> "choose", life |-> l]
+
+Tick == /\ pos \in 1..4
+        /\ pos' = pos + 1
+        /\ UNCHANGED <<life, seen>>
+        /\ op' = [name |-> "tick", to |-> WhenSeq[pos + 1]]
+
+Verify(c, li, a) ==
+  /\ pos >= 1
+  /\ LET r == [chain |-> c, list |-> li, alg |-> a, life |-> life, when |-> WhenSeq[pos]]
+     IN /\ op' = [name |-> "verify", chain |-> c, list |-> li, alg |-> a, life |-> life, when |-> WhenSeq[pos],
+                  allowed |-> Allowed(r), repeat |-> a \in seen]
+        /\ seen' = IF TRUE \in Allowed(r) THEN seen \cup {a} ELSE seen
+  /\ UNCHANGED <<pos, life>>
+
+Dial(used, list) == /\ pos = 0
+                    /\ UNCHANGED <<pos, life, seen>>
                     /\ op' = [name |-> "dial", used |-> used, list |-> list, tls |-> TLSAccepts(used),
                               completes |-> Completes(used, list)]
 
-DialChain(used, list) == /\ n' = n
+DialChain(used, list) == /\ pos = 0
+                         /\ UNCHANGED <<pos, life, seen>>
                          /\ op' = [name |-> "dialchain", used |-> used, list |-> list,
                                    allowed |-> ChainCompletes(used, list)]
 
-Next == \/ \E r \in Rows : Verify(r)
+Next == \/ \E l \in Lives : Choose(l)
+        \/ Tick
+        \/ \E c \in Chains, li \in Lists, a \in Algs : Verify(c, li, a)
         \/ \E used \in (SUBSET Hashes) \ {{}} : \E list \in SUBSET Hashes : Dial(used, list)
         \/ \E used \in (SUBSET Hashes) \ {{}} : \E list \in SUBSET Hashes : DialChain(used, list)
 
 Spec == Init /\ [][Next]_vars
 
 \* sanity of the table (design level)
-TypeOK == n = 0
+TypeOK == pos \in 0..5 /\ seen \subseteq Algs
 AcceptNeedsAll == [][op'.name = "verify" /\ TRUE \in op'.allowed =>
                        /\ op'.chain \in {"S", "S_C"} /\ op'.list \in {"sha256", "sha256_among_others"}
                        /\ op'.alg \in {"ecdsa", "ed25519", "eckey_rsasig"} /\ op'.life # "14d1s"
                        /\ op'.when \notin {"notyet", "expired"}]_vars
+\* the verdict is a function of its arguments only (not of what was asked before)
+VerdictFunctionOfArguments ==
+  [][op'.name = "verify" => op'.allowed = Allowed([chain |-> op'.chain, list |-> op'.list, alg |-> op'.alg,
+                                                    life |-> op'.life, when |-> op'.when])]_vars
 DialNeedsConfirmation == [][op'.name = "dial" /\ op'.completes => op'.used \subseteq op'.list /\ "cur" \in op'.used]_vars
 =============================================================================
